@@ -367,6 +367,7 @@ class GetUnitDataFromExpr(Contract):
         it.call_log.append(self.name)
         from pyvc.unyt_domain import E_ONE
         if it.branch(e.term == E_ONE):
+            it.__dict__.setdefault("unit_data_results", []).append((e, (Fraction(1), SDim.one())))
             return (Fraction(1), SDim.one())
         if it.branch(e_kind(e.term) == K_SYM):
             c = LookupUnitSymbol()
